@@ -179,9 +179,13 @@ func factsC12(r *Repo) []Fact {
 			}
 		}
 		out = append(out, boolFact("registerRejectsEmptyKey", emptyRejected, "serialization.go GenericRegister: `if key == \"\" {return error}`"))
+		out = append(out, c12RegisterShape(fd)...)
 	} else {
 		out = append(out, unknownFact("registerRejectsDuplicates", "Bool", "false", "serialization.go", "func GenericRegister not found"))
 		out = append(out, unknownFact("registerRejectsEmptyKey", "Bool", "false", "serialization.go", "func GenericRegister not found"))
+		out = append(out, unknownFact("registerGuards", "List String", "[]", "serialization.go", "func GenericRegister not found"))
+		out = append(out, unknownFact("registerStoresBoth", "Bool", "false", "serialization.go", "func GenericRegister not found"))
+		out = append(out, unknownFact("registerStripsPointers", "Bool", "false", "serialization.go", "func GenericRegister not found"))
 	}
 
 	// ---- decode branches of internalUnmarshal ----
@@ -387,4 +391,136 @@ func c12MapKeyFresh(branch []ast.Stmt) Fact {
 		})
 	}
 	return boolFact("mapKeyFreshPerEntry", inside >= 1 && inside == total, where)
+}
+
+// c12RegisterShape: the body of GenericRegister as the registry state machine of
+// Model/C12Reg.lean reads it (`regStep`).
+//
+// registerGuards: the top-level `if` statements in source order, up to the first store into a
+// registry map, each classified as
+//
+//	"emptyKey"   if key == "" (or len(key) == 0)  { return <one non-nil result> }
+//	"keyTaken"   if _, ok := m[key]; ok            { return fmt.Errorf(…) }
+//	"typeTaken"  if _, ok := rm[t]; ok             { return fmt.Errorf(…) }
+//
+// where the body is exactly that one return statement: the call is refused whenever the
+// condition holds.  A guard of one of these shapes whose body is anything else (a nested
+// condition, a `return nil`, a store) is listed with a trailing "?" — it does not refuse
+// unconditionally —, any other top-level `if` as "other".
+//
+// registerStoresBoth: after the guards the body stores `m[key] = t` and `rm[t] = key`, once
+// each, at the top level, and these are the only assignments to an element of m or rm in the
+// function (so a refused call leaves both maps alone and an accepted one extends both).
+//
+// registerStripsPointers: before the first guard there is the loop
+// `for t.Kind() == reflect.Ptr { t = t.Elem() }` (the registered type is T without its pointers).
+func c12RegisterShape(fd *ast.FuncDecl) []Fact {
+	const whereG = "serialization.go GenericRegister: top-level guards in order (emptyKey / keyTaken / typeTaken; `?` = does not refuse unconditionally)"
+	const whereS = "serialization.go GenericRegister: `m[key] = t` and `rm[t] = key` once each at the top level after the guards, no other store into m / rm"
+	const whereP = "serialization.go GenericRegister: `for t.Kind() == reflect.Ptr { t = t.Elem() }` before the guards"
+	isStore := func(s ast.Stmt) (string, bool) {
+		as, ok := s.(*ast.AssignStmt)
+		if !ok || len(as.Lhs) != 1 || len(as.Rhs) != 1 || as.Tok != token.ASSIGN {
+			return "", false
+		}
+		l, r := exprString(as.Lhs[0]), exprString(as.Rhs[0])
+		if l == "m[key]" && r == "t" {
+			return "m", true
+		}
+		if l == "rm[t]" && r == "key" {
+			return "rm", true
+		}
+		return "", false
+	}
+	refuses := func(body *ast.BlockStmt, needErrorf bool) bool {
+		if body == nil || len(body.List) != 1 {
+			return false
+		}
+		rs, ok := body.List[0].(*ast.ReturnStmt)
+		if !ok || len(rs.Results) != 1 {
+			return false
+		}
+		res := exprString(rs.Results[0])
+		if needErrorf {
+			return strings.HasPrefix(res, "fmt.Errorf(") || strings.HasPrefix(res, "errors.New(")
+		}
+		return res != "nil"
+	}
+	var guards []string
+	strips, seenGuard, seenStore := false, false, false
+	stores := map[string]int{}
+	for _, s := range fd.Body.List {
+		if which, ok := isStore(s); ok {
+			seenStore = true
+			stores[which]++
+			continue
+		}
+		if fs, ok := s.(*ast.ForStmt); ok && !seenGuard && !seenStore && fs.Init == nil && fs.Post == nil && fs.Cond != nil &&
+			exprString(fs.Cond) == "t.Kind()==reflect.Ptr" && len(fs.Body.List) == 1 {
+			if as, ok := fs.Body.List[0].(*ast.AssignStmt); ok && len(as.Lhs) == 1 && len(as.Rhs) == 1 &&
+				exprString(as.Lhs[0]) == "t" && exprString(as.Rhs[0]) == "t.Elem()" {
+				strips = true
+			}
+			continue
+		}
+		is, ok := s.(*ast.IfStmt)
+		if !ok {
+			continue
+		}
+		if seenStore {
+			guards = append(guards, "late") // a test after the store is not a guard of it
+			continue
+		}
+		seenGuard = true
+		name := "other"
+		cond := exprString(is.Cond)
+		switch {
+		case is.Init == nil && (cond == "key==\"\"" || cond == "len(key)==0"):
+			name = "emptyKey"
+			if !refuses(is.Body, false) || is.Else != nil {
+				name += "?"
+			}
+		case is.Init != nil:
+			if as, ok := is.Init.(*ast.AssignStmt); ok && len(as.Lhs) == 2 && len(as.Rhs) == 1 && exprString(as.Lhs[1]) == cond {
+				switch exprString(as.Rhs[0]) {
+				case "m[key]":
+					name = "keyTaken"
+				case "rm[t]":
+					name = "typeTaken"
+				}
+				if name != "other" && (!refuses(is.Body, true) || is.Else != nil) {
+					name += "?"
+				}
+			}
+		}
+		guards = append(guards, name)
+	}
+	// any other store into an element of m / rm anywhere in the function
+	extra := 0
+	ast.Inspect(fd.Body, func(x ast.Node) bool {
+		switch n := x.(type) {
+		case *ast.AssignStmt:
+			for _, l := range n.Lhs {
+				if ix, ok := l.(*ast.IndexExpr); ok {
+					if b := exprString(ix.X); b == "m" || b == "rm" {
+						extra++
+					}
+				}
+			}
+		case *ast.CallExpr:
+			if exprString(n.Fun) == "delete" {
+				extra += 100
+			}
+		}
+		return true
+	})
+	var gs []string
+	for _, g := range guards {
+		gs = append(gs, leanStr(g))
+	}
+	return []Fact{
+		{Name: "registerGuards", Type: "List String", Value: "[" + strings.Join(gs, ", ") + "]", Where: whereG},
+		boolFact("registerStoresBoth", stores["m"] == 1 && stores["rm"] == 1 && extra == 2, whereS),
+		boolFact("registerStripsPointers", strips, whereP),
+	}
 }
